@@ -31,14 +31,14 @@ fn op_strat(which: Which) -> impl Strategy<Value = Op> {
     ];
     let hl = if which == Which::C15 { 2 } else { 1 };
     prop_oneof![
-        4 => (ctor, 0usize..LENGTHS.len()).prop_map(|(ctor, len_idx)| Op::New { ctor, len_idx }),
+        4 => (ctor, 0usize..BYTES_LENGTHS.len()).prop_map(|(ctor, len_idx)| Op::New { ctor, len_idx }),
         3 => (0usize..3).prop_map(Op::Lock),
         3 => (0usize..3).prop_map(Op::Unlock),
         3 => (0usize..3).prop_map(Op::ReadOnly),
         3 => (0usize..3).prop_map(Op::ReadWrite),
         3 => (0usize..3).prop_map(Op::NoAccess),
         2 => (0usize..3).prop_map(Op::Clone),
-        3 => (0usize..3, 0usize..LENGTHS.len()).prop_map(|(r, l)| Op::Resize(r, l)),
+        3 => (0usize..3, 0usize..BYTES_LENGTHS.len()).prop_map(|(r, l)| Op::Resize(r, l)),
         1 => (0usize..3, 0usize..9000, 1u8..=255).prop_map(|(r, p, v)| Op::Write(r, p, v)),
         2 => (0usize..3).prop_map(Op::Drop),
         hl => (0usize..10).prop_map(Op::HighLevel),
@@ -69,6 +69,9 @@ pub fn canonical_paths() -> Vec<Vec<Op>> {
         vec![n(Ctor::FromSliceLocked), Unlock(0), ReadOnly(0), NoAccess(0), Lock(0), ReadWrite(0), Unlock(0), Drop(0)],
         vec![n(Ctor::Plain), Clone(0), Resize(0, 8), Resize(0, 3), Lock(1), ReadOnly(1), Clone(1), Drop(1), Drop(0), Drop(0)],
         vec![n(Ctor::FromSliceROLocked), ReadOnly(0), Unlock(0), Unlock(0), ReadWrite(0), ReadWrite(0), NoAccess(0), NoAccess(0), ReadOnly(0), Lock(0), Drop(0)],
+        // sizes around and beyond the allocator's mmap threshold (resizable container only)
+        vec![n(Ctor::Plain), Resize(0, 10), Resize(0, 12), Resize(0, 3), Lock(0), Resize(0, 11), Clone(0), Resize(1, 1), Drop(0), Drop(0)],
+        vec![n(Ctor::FromSliceLocked), Resize(0, 11), ReadOnly(0), Unlock(0), NoAccess(0), ReadWrite(0), Resize(0, 12), Resize(0, 10), Drop(0)],
     ]
 }
 
